@@ -16,6 +16,8 @@ import (
 	"path/filepath"
 	"regexp"
 	"runtime"
+	"runtime/debug"
+	"runtime/pprof"
 	"sort"
 	"strconv"
 	"strings"
@@ -181,7 +183,7 @@ func buildOverlay(dirs []string, work string) (map[string][]byte, map[string]str
 			for _, fn := range fns {
 				sb.WriteString("\t\t\"" + fn + "\": " + fn + ",\n")
 			}
-			sb.WriteString("\t}\n\tf := table[os.Getenv(\"VERIF_HARNESS\")]\n\tif f == nil {\n\t\tt.Skip(\"no such harness here\")\n\t}\n\tf()\n\tif len(verifReplayState.Failed) > 0 {\n\t\tt.Fatalf(\"VERIF-REPLAY-REPRODUCED: %v\", verifReplayState.Failed)\n\t}\n}\n")
+			sb.WriteString("\t}\n\tverifTB = t\n\tf := table[os.Getenv(\"VERIF_HARNESS\")]\n\tif f == nil {\n\t\tt.Skip(\"no such harness here\")\n\t}\n\tf()\n\tif len(verifReplayState.Failed) > 0 {\n\t\tt.Fatalf(\"VERIF-REPLAY-REPRODUCED: %v\", verifReplayState.Failed)\n\t}\n}\n")
 			tf := filepath.Join(work, strings.ReplaceAll(d, "/", "_")+"_zz_verif_replay_test.go")
 			os.WriteFile(tf, []byte(sb.String()), 0o644)
 			replace[filepath.Join(repoDir, d, "zz_verif_replay_test.go")] = tf
@@ -259,11 +261,18 @@ func nativeReplay(prop *Property, rf *replayFile, path string, replace map[strin
 	b, _ := json.Marshal(map[string]interface{}{"Replace": replace})
 	os.WriteFile(ovPath, b, 0o644)
 	rel := strings.TrimPrefix(rf.Pkg, "github.com/ory/keto")
+	// harness-only packages live in directories that exist only in the overlay;
+	// go test needs the directory itself (empty, removed again afterwards)
+	if pdir := filepath.Join(repoDir, rel); !dirExists(pdir) {
+		if err := os.MkdirAll(pdir, 0o755); err == nil {
+			defer os.Remove(pdir)
+		}
+	}
 	tags := "verif"
 	if prop.ReplayTags != "" {
 		tags += " " + prop.ReplayTags
 	}
-	cmd := exec.Command("go", "test", "-tags", tags, "-vet=off", "-count=1", "-timeout", "120s", "-overlay", ovPath, "-run", "^TestVerifReplay$", "."+rel)
+	cmd := exec.Command("go", "test", "-tags", tags, "-vet=off", "-count=1", "-v", "-timeout", "120s", "-overlay", ovPath, "-run", "^TestVerifReplay$", "."+rel)
 	cmd.Dir = repoDir
 	cmd.Env = append(os.Environ(), "GOFLAGS=-mod=mod", "GOPROXY=off", "VERIF_REPLAY="+path, "VERIF_HARNESS="+nativeHarnessOf(rf))
 	out, _ := cmd.CombinedOutput()
@@ -296,6 +305,12 @@ type evidence struct {
 }
 
 func main() {
+	if g := os.Getenv("VERIF_GOGC"); g != "" {
+		n, _ := strconv.Atoi(g)
+		debug.SetGCPercent(n)
+	} else {
+		debug.SetGCPercent(200)
+	}
 	if len(os.Args) < 2 {
 		fmt.Fprintln(os.Stderr, "usage: vcheck <property|dev|list> [flags]")
 		os.Exit(2)
@@ -316,11 +331,18 @@ func main() {
 	maxPaths := fs.Int64("max-paths", 0, "dev: path budget")
 	race := fs.Bool("race", false, "dev: race analysis")
 	noReplay := fs.Bool("no-native", false, "skip native replay (debug)")
+	replayTags := fs.String("replay-tags", "", "dev: extra build tags for native replay")
 	var params multiFlag
 	fs.Var(&params, "param", "dev: k=v")
 	var ovr multiFlag
 	fs.Var(&ovr, "override", "dev: from=to")
+	cpuprof := fs.String("cpuprofile", "", "write cpu profile")
 	fs.Parse(os.Args[2:])
+	if *cpuprof != "" {
+		f, _ := os.Create(*cpuprof)
+		pprof.StartCPUProfile(f)
+		defer pprof.StopCPUProfile()
+	}
 	if *tier == "" {
 		*tier = os.Getenv("VERIF_TIER")
 		if *tier == "" {
@@ -352,7 +374,7 @@ func main() {
 			kv := strings.SplitN(p, "=", 2)
 			om[kv[0]] = kv[1]
 		}
-		prop = &Property{ID: "DEV", HarnessDirs: strings.Split(*dir, ","),
+		prop = &Property{ID: "DEV", HarnessDirs: strings.Split(*dir, ","), ReplayTags: *replayTags,
 			Runs: func(string) []Run {
 				return []Run{{Name: "dev", Pkg: *pkg, Harness: *fn, Params: pm, Overrides: om, Delay: *delay, MaxPaths: *maxPaths, Race: *race}}
 			}}
@@ -366,7 +388,9 @@ func main() {
 			os.Exit(2)
 		}
 	}
-	os.Exit(runProperty(prop, *tier, *replay, *workers, *solver, *trace, *only, *noReplay))
+	code := runProperty(prop, *tier, *replay, *workers, *solver, *trace, *only, *noReplay)
+	pprof.StopCPUProfile()
+	os.Exit(code)
 }
 
 type multiFlag []string
@@ -614,6 +638,9 @@ func runProperty(prop *Property, tier, replayPath string, workers int, solver st
 		ev.Coverage["bounds"] = prop.Bounds(tier)
 	}
 	ev.Assumptions = prop.Assumptions
+	if ev.Assumptions == nil {
+		ev.Assumptions = []string{}
+	}
 	ev.WallS = round2(time.Since(t0).Seconds())
 	ev.Violations = allViolations
 	if prop.ID != "DEV" {
@@ -638,6 +665,11 @@ func runProperty(prop *Property, tier, replayPath string, workers int, solver st
 	}
 	fmt.Printf("[%s] held on everything explored (%d paths, %d obligations, %.1fs)\n", prop.ID, totalPaths, totalObl, time.Since(t0).Seconds())
 	return 0
+}
+
+func dirExists(p string) bool {
+	st, err := os.Stat(p)
+	return err == nil && st.IsDir()
 }
 
 func nativeHarnessOf(rf *replayFile) string {
